@@ -16,7 +16,33 @@ OPS = ['d', 'c', 'y', '<', '>', 'g~', 'gu', 'gU']
 MOTS = ['h', 'l', 'j', 'k', '0', '^', '$', 'w', 'b', 'e', 'W', 'B', 'E', 'fa', 'Fo', 'tx', 'T ', ';', ',', 'G', '+', '-', '_', '%', '{', '}', ' ', '5|']
 
 
+APPEND_BASE = 1 << 50
+
+
+def make_append_case(idx):
+    """register append family: a store into "a / "b (line-wise or character-wise), one or two appends through the upper-case
+    name with the other kind (the kind of the LAST store decides how the register is put), then puts; the tail reveals a and b."""
+    R = rng('c08app', idx)
+    kind = R.choice(['ascii', 'ltr'])
+    lines = [gen.rand_line(R, kind, 5) or 'ab cd' for _ in range(R.randint(2, 5))]
+    lw = lambda: R.choice(['yy', 'Y', 'dd', '2yy', 'yj', 'dk', 'y_'])
+    cw = lambda: R.choice(['ye', 'yw', 'dw', 'x', 'yl', 'y$', 'D', 'dfa', '2x', 'yb'])
+    mv_ = lambda: R.choice(['', 'j', 'k', 'w', '0', '$', 'b', 'l'])
+    r = R.choice('ab')
+    first, rest = (lw, cw) if R.random() < 0.6 else (cw, lw)
+    prog = ['%dG' % R.randint(1, len(lines)), mv_(), '"' + r + first(), mv_()]
+    for _ in range(R.randint(1, 3)):
+        prog += ['"' + r.upper() + (rest if R.random() < 0.75 else first)(), mv_()]
+    for _ in range(R.randint(1, 2)):
+        prog += [R.choice(['"%sp', '"%sP', '2"%sp']) % r, mv_()]
+    if R.random() < 0.3:
+        prog += ['"' + r.upper() + R.choice([lw, cw])(), '"%sp' % r]
+    return {'lines': lines, 'keys': ''.join(prog), 'idx': idx}
+
+
 def make_case(idx):
+    if idx >= APPEND_BASE:
+        return make_append_case(idx)
     R = rng('c08', idx)
     kind = R.choice(['ascii', 'ltr', 'ltr'])
     mode = R.random()
@@ -115,7 +141,8 @@ def run(tier, V):
     W = c17.Widths()
     n = 5000 if tier == 'quick' else 40000
     base = common.seed() * 141650939 % (1 << 40)
-    res = pmap(run_case, [(vi, base + i, W) for i in range(n)], procs=True)
+    napp = 400 if tier == 'quick' else 4000
+    res = pmap(run_case, [(vi, base + i, W) for i in range(n)] + [(vi, APPEND_BASE + base + i, W) for i in range(napp)], procs=True)
     nontriv = 0
     cuts = {}
     for key, what, wit, nt in res:
@@ -128,10 +155,10 @@ def run(tier, V):
         elif nt:
             nontriv += 1
     c0 = make_case(base)
-    cov = {'evaluations': n, 'distinct_nontrivial': nontriv, 'cut_by_model': cuts,
+    cov = {'evaluations': n + napp, 'distinct_nontrivial': nontriv, 'cut_by_model': cuts,
            'rule': ('%d programs: (a) operator x motion x {count before, count after} x register prefix from chosen start positions on small buffers; (b) random programs of 2-10 commands from d c y < > ! g~ gu gU x X D C s S Y p P J r ~ i a I A o O '
-                    'with insert sessions using ^H ^W ^U ^T ^D ^V and multi-line input, over ASCII and multi-byte buffers incl. empty buffers and lines.  compared: whole written file = text + cursor marker + registers a, b, unnamed, 1, 2, 3, \\\\x put at the end.  '
-                    'non-trivial = the program changed the text.' % n),
+                    '(c) %d register-append sequences: a line-wise or character-wise store into a named register, appends of the other kind through the upper-case name, puts; ' 'with insert sessions using ^H ^W ^U ^T ^D ^V and multi-line input, over ASCII and multi-byte buffers incl. empty buffers and lines.  compared: whole written file = text + cursor marker + registers a, b, unnamed, 1, 2, 3, \\\\x put at the end.  '
+                    'non-trivial = the program changed the text.' % (n, napp)),
            'samples': [{'lines': c0['lines'][:4], 'keys': c0['keys']}]}
     assumptions = ['reference = model_vi (span semantics literal: exclusive unless the motion is one of f F t T e E %, line-wise for line motions / doubled operators)', 'left-to-right text; ^P ^R ^A ^K and keymaps in insert mode are outside the statement (program cut)']
     return cov, assumptions
